@@ -234,6 +234,64 @@ theorem certified_verdict_unique (hv : I.valid = true) {x p x' p' : List Int} {v
 
 end Inst
 
+/-! ## C09 — T-model: the successive-shortest-paths reference as a certifying algorithm -/
+
+/-- every answer `certify` hands out is right: `feasible` comes with a minimum-cost feasible flow
+and its cost, `infeasible` means that no feasible flow exists – for every instance and whatever
+the search produced -/
+theorem Inst.certify_sound (J : Inst) (hv : J.valid = true) (o : Inst.SOut) :
+    ((J.certify o).status = .feasible →
+      J.Feas (Inst.fl (J.certify o).x) ∧ J.costF (Inst.fl (J.certify o).x) = (J.certify o).cost ∧
+      ∀ y, J.Feas y → (J.certify o).cost ≤ J.costF y) ∧
+    ((J.certify o).status = .infeasible → ¬ ∃ y, J.Feas y) := by
+  unfold Inst.certify
+  cases hs : o.status with
+  | feasible =>
+    simp only
+    by_cases hc : J.chkMinCost o.x o.pot o.cost = true
+    · rw [if_pos hc]
+      exact ⟨(fun _ => J.chkMinCost_sound hv _ _ _ hc), (fun h => by rw [hs] at h; simp at h)⟩
+    · rw [if_neg hc]
+      exact ⟨(fun h => by simp at h), (fun h => by simp at h)⟩
+  | infeasible =>
+    simp only
+    by_cases hc : J.chkInfeas o.reach = true
+    · rw [if_pos hc]
+      exact ⟨(fun h => by rw [hs] at h; simp at h), (fun _ => J.chkInfeas_sound hv _ hc)⟩
+    · rw [if_neg hc]
+      exact ⟨(fun h => by simp at h), (fun h => by simp at h)⟩
+  | negcycle =>
+    simp only
+    exact ⟨(fun h => by rw [hs] at h; simp at h), (fun h => by rw [hs] at h; simp at h)⟩
+
+/-- **ssp_sound** (`min_cost_flow` instances): for every network, terminals and demand, if the
+certified SSP model answers `feasible` its flow routes the demand within the capacities at
+minimum cost and the reported cost is Σ cost·flow; if it answers `infeasible` no feasible routing
+exists.  (The converse – it always answers when there is no negative cycle – is `ssp_certifies`,
+not proved; the check treats "no certified answer" as an infrastructure error.) -/
+theorem ssp_sound (n : Nat) (arcs : List Arc) (s t : Nat) (d : Int)
+    (hv : (Inst.ofST n arcs s t d).valid = true) :
+    ((solveST n arcs s t d).status = .feasible →
+      (Inst.ofST n arcs s t d).Feas (Inst.fl (solveST n arcs s t d).x) ∧
+      (Inst.ofST n arcs s t d).costF (Inst.fl (solveST n arcs s t d).x) = (solveST n arcs s t d).cost ∧
+      ∀ y, (Inst.ofST n arcs s t d).Feas y → (solveST n arcs s t d).cost ≤ (Inst.ofST n arcs s t d).costF y) ∧
+    ((solveST n arcs s t d).status = .infeasible → ¬ ∃ y, (Inst.ofST n arcs s t d).Feas y) :=
+  Inst.certify_sound _ hv _
+
+/-- **ssp_sound** for transshipment instances (`network_simplex`'s problem) -/
+theorem ssp_sound_transshipment (I : Inst) (hv : I.valid = true) :
+    ((solveTS I).status = .feasible →
+      I.Feas (Inst.fl (solveTS I).x) ∧ I.costF (Inst.fl (solveTS I).x) = (solveTS I).cost ∧
+      ∀ y, I.Feas y → (solveTS I).cost ≤ I.costF y) ∧
+    ((solveTS I).status = .infeasible → ¬ ∃ y, I.Feas y) := by
+  unfold solveTS
+  split
+  · exact Inst.certify_sound _ hv _
+  · exact Inst.certify_sound _ hv _
+-- FULL STATEMENT (not proved), `ssp_certifies`: if the network has no negative-cost cycle then
+-- `(solveST n arcs s t d).status ≠ .negcycle` (and likewise `solveTS`), i.e. the search always ends
+-- with a certificate the checker accepts.
+
 /-! ## C09 — assignment as a unit-capacity bipartite flow -/
 
 /-- **assignment_of_flow**: the feasible integral flows of `solve_assignment`'s unit-capacity
@@ -267,6 +325,37 @@ theorem assignment_optimal_of_cert {n m : Nat} (C : Nat → Nat → Int) {x p : 
 theorem chkAssign_sound {n m : Nat} {a : List Int} (h : chkAssign n m a = true) :
     a.length = n ∧ ValidAssign n m (aOf a) := chkAssign_valid h
 
+/-! ## C09 — the known finding of `min_cost_flow`: one cost per ordered node pair -/
+
+/-- **pair_costs_faithful_partial** (the positive statement on the complement of the finding's
+class): when no two different nodes carry an anti-parallel pair of arcs and parallel arcs have
+equal cost (`hasPairFeature arcs = false`), the cost table the unchanged `min_cost_flow` builds
+prices every forward residual arc with its arc's cost, every backward residual arc with the
+negated cost, and holds nothing else – so the code's node-pair tables are the per-arc residual
+network of the `ssp` model. -/
+theorem pair_costs_faithful_partial {arcs : List Arc} (h : hasPairFeature arcs = false) :
+    (∀ a ∈ arcs, (pairCosts arcs).get a.src a.tgt = some a.cost) ∧
+    (∀ a ∈ arcs, a.src ≠ a.tgt → (pairCosts arcs).get a.tgt a.src = some (- a.cost)) ∧
+    (∀ u v c, (pairCosts arcs).get u v = some c →
+      ∃ a ∈ arcs, (a.src = u ∧ a.tgt = v ∧ a.cost = c) ∨
+        (a.src ≠ a.tgt ∧ a.tgt = u ∧ a.src = v ∧ - a.cost = c)) := by
+  have hN : NoFeature arcs := (noPairFeature_iff arcs).1 (by
+    unfold hasPairFeature at h; simpa using h)
+  have := pairCosts_inv hN
+  exact ⟨this.fwd, this.bwd, this.only⟩
+-- FULL STATEMENT (not proved, false of the unchanged code – see `pair_costs_misprice`): the same
+-- three clauses for every arc list.
+
+/-- **Negative statement about the unchanged code**: on the minimised witness of the finding
+(arcs 1→0 with capacity 0, cost 0 and 0→1 with capacity 1, cost 1; route 1 unit from 0 to 1) the
+instance has the feature, the table prices the only usable arc 0→1 at 0 instead of 1, and the
+certified minimum cost is 1 (the unchanged code reports 0). -/
+theorem pair_costs_misprice :
+    hasPairFeature [⟨1, 0, 0, 0⟩, ⟨0, 1, 1, 1⟩] = true ∧
+    (pairCosts [⟨1, 0, 0, 0⟩, ⟨0, 1, 1, 1⟩]).get 0 1 = some 0 ∧
+    (Inst.ofST 2 [⟨1, 0, 0, 0⟩, ⟨0, 1, 1, 1⟩] 0 1 1).chkMinCost [0, 1] [-1, 0] 1 = true := by
+  decide
+
 /-! ### non-vacuity (C09) -/
 
 /-- the witness of DESIGN §4 C09 (anti-parallel arcs and parallel arcs of different cost):
@@ -277,10 +366,16 @@ example : witnessInst.valid = true := by decide
 -- hypotheses of `chkMinCost_sound` / `reduced_cost_cert`: met by the model's own answer
 example : witnessInst.chkMinCost [0, 1, 3, 0] [-5, 0] 20 = true := by decide
 example : (witnessInst.ssp 0 1 4).cost = 20 := by decide
+-- `ssp_sound`: the certified model answers on the witness (status feasible, cost 20) and on an infeasible one
+example : (solveST 2 [⟨1, 0, 2, 2⟩, ⟨0, 1, 1, 5⟩, ⟨0, 1, 4, 5⟩, ⟨1, 0, 3, 5⟩] 0 1 4).status = .feasible := by decide
+example : (solveST 2 [⟨1, 0, 2, 2⟩, ⟨0, 1, 1, 5⟩, ⟨0, 1, 4, 5⟩] 0 1 9).status = .infeasible := by decide
+example : (solveTS ⟨3, [⟨0, 1, 5, 2⟩, ⟨1, 2, 5, 1⟩, ⟨0, 2, 2, 4⟩], [6, 0, -6]⟩).status = .feasible := by decide +kernel
 -- hypotheses of `chkInfeas_sound` / `infeasible_cut_cert`: demand 9 exceeds the capacity 5 out of {0}
 example : (Inst.ofST 2 [⟨1, 0, 2, 2⟩, ⟨0, 1, 1, 5⟩, ⟨0, 1, 4, 5⟩] 0 1 9).chkInfeas [0] = true := by decide
 -- hypotheses of `assignment_of_flow` / `chkAssign_sound`: a 2×3 assignment
 example : chkAssign 2 3 [2, 0] = true := by decide
 example : ValidAssign 2 3 (aOf [2, 0]) := (chkAssign_sound (by decide)).2
+-- hypothesis of `pair_costs_faithful_partial`: a network with parallel arcs of equal cost
+example : hasPairFeature [⟨0, 1, 2, 3⟩, ⟨0, 1, 1, 3⟩, ⟨1, 2, 4, -1⟩, ⟨0, 2, 1, 5⟩] = false := by decide
 
 end Solvor.Flow
